@@ -280,7 +280,13 @@ def constructor_cases(rng):
           ('no_load_current=maximum', lambda: motorc(no_load_electric_current=cur(2), maximum_electric_current=cur(2)), 'reject'),
           ('no_load_current>maximum', lambda: motorc(no_load_electric_current=cur(2.5)), 'reject'),
           ('no_load_current=0 (documented as allowed)', lambda: motorc(no_load_electric_current=cur(0)), 'accept'),
-          ('valid motor', lambda: motorc(), 'accept'), ('valid motor without currents', lambda: motor(), 'accept')]
+          ('valid motor', lambda: motorc(), 'accept'), ('valid motor without currents', lambda: motor(), 'accept'),
+          # several parameters invalid at once (a check on a product or a sum of parameters lets such a motor through)
+          ('no_load_speed<0 and maximum_torque<0', lambda: motor(no_load_speed=spd(neg()), maximum_torque=tq(neg())), 'reject'),
+          ('no_load_speed<0 and maximum_torque<0, with currents', lambda: motorc(no_load_speed=spd(-200), maximum_torque=tq(-0.01)), 'reject'),
+          ('maximum_current<0 and no_load_current<0', lambda: motorc(no_load_electric_current=cur(-2), maximum_electric_current=cur(-0.1)), 'reject'),
+          ('maximum_torque<0 and maximum_current<0', lambda: motorc(maximum_torque=tq(neg()), maximum_electric_current=cur(neg())), 'reject'),
+          ('no_load_speed=0 and maximum_torque=0', lambda: motor(no_load_speed=spd(0), maximum_torque=tq(0)), 'reject')]
     spur = lambda **kw: mo.SpurGear(**dict(dict(name='g', n_teeth=20, inertia_moment=J), **kw))
     hel = lambda **kw: mo.HelicalGear(**dict(dict(name='g', n_teeth=20, inertia_moment=J, helix_angle=ang(20)), **kw))
     C += [('spur teeth=9', lambda: spur(n_teeth=9), 'reject'), ('spur teeth=0', lambda: spur(n_teeth=0), 'reject'), ('spur teeth=-12', lambda: spur(n_teeth=-12), 'reject'),
